@@ -400,7 +400,7 @@ func main() {
 		server: &pkiimpl.Server{Logger: logger, ClientCA: our},
 		tokens: map[string]string{}, sampled: map[string]bool{}, sem: make(chan struct{}, runtime.GOMAXPROCS(0)),
 	}
-	nKeys := r.Pick(16, 600)
+	nKeys := r.Pick(16, 300)
 	type item struct {
 		idx      int
 		k, other kp
